@@ -82,6 +82,21 @@ inductive CD
   | cfg (c f : String)
 deriving Repr, Inhabited
 
+/-- kinds of C parameters: `int_fast32_t` / `bool`; `T*` (dense tensor, scalar by reference);
+    `struct exo_win_kT` by value -/
+inductive PKind | int | ptr | win
+deriving DecidableEq, Repr, Inhabited
+
+/-- actual arguments as `comp_fnarg` prints them -/
+inductive CArg
+  | int (e : CI)
+  | ptr (x : Sym) (addr : Bool)      -- `x` (pointer variable passed on) / `&x` (local scalar `T x;`)
+  | winVar (x : Sym)                 -- a window struct variable, by value
+  | win (src : Sym) (srcIsWin : Bool) (los strides : List CExpr) (isIv : List Bool)
+      -- `(struct exo_win_kT){ &src[Σ lo·stride], { kept strides } }`
+deriving Repr, Inhabited
+
+mutual
 inductive CStmt
   | nop                                             -- `; // NO-OP`
   | store (lv : LVal) (e : CD)                      -- `lv = e;`
@@ -95,6 +110,12 @@ inductive CStmt
   | free (x : Sym)                                  -- `free(x);`
   | winInit (w src : Sym) (srcIsWin : Bool) (los strides : List CExpr) (isIv : List Bool)
       -- `struct exo_win_kT w = (struct exo_win_kT){ &src[Σ lo·stride], { kept strides } };`
+  | call (f : CFun) (args : List CArg)              -- `f(ctxt,a1,a2,…);` — the callee is embedded,
+                                                    -- as in `Exo.Stmt.call`
+/-- a C function definition `void name(ctxt, params) { body }` -/
+inductive CFun
+  | mk (name : String) (params : List (Sym × PKind)) (body : List CStmt)
+end
 
 instance : Inhabited CStmt := ⟨.nop⟩
 
@@ -288,6 +309,46 @@ def freeC (mon : Bool) (c : CState V) (x : Sym) : Except CErr (CState V) :=
       else pure { c with stat := c.stat.set b .freed }
   | _ => if mon then throw .stuck else pure c
 
+/-- value of an actual argument -/
+inductive AVal
+  | int (n : Int)
+  | val (cv : CVal)
+deriving Repr, Inhabited
+
+def evalArg (c : CState V) : CArg → Except CErr AVal
+  | .int e => do let v ← evalCI c e; pure (.int v)
+  | .ptr x _ => match lookupSym x c.vals with
+      | some (.ptr b o) => pure (.val (.ptr b o))
+      | _ => throw .stuck
+  | .winVar x => match lookupSym x c.vals with
+      | some (.win b o ss) => pure (.val (.win b o ss))
+      | _ => throw .stuck
+  | .win src srcIsWin los strides isIv => do
+      let ls ← evalIxs c los
+      let ss ← evalIxs c strides
+      match lookupSym src c.vals, srcIsWin with
+      | some (.ptr b p), false =>
+          let r := cWindow ⟨p, ss⟩ (mkWA ls isIv)
+          pure (.val (.win b r.off r.strides))
+      | some (.win b p _), true =>
+          let r := cWindow ⟨p, ss⟩ (mkWA ls isIv)
+          pure (.val (.win b r.off r.strides))
+      | _, _ => throw .stuck
+
+/-- bind actuals to parameters (same order of accumulation as `Exo.bindArgs`); a value of the
+    wrong kind is a C type error -/
+def bindC (c : CState V) : List (Sym × PKind) → List CArg → List (Sym × Int) →
+    List (Sym × CVal) → Except CErr (List (Sym × Int) × List (Sym × CVal))
+  | [], [], ci, cv => pure (ci, cv)
+  | (x, k) :: ps, a :: as, ci, cv => do
+      let v ← evalArg c a
+      match k, v with
+      | .int, .int n => bindC c ps as ((x, n) :: ci) cv
+      | .ptr, .val (.ptr b o) => bindC c ps as ci ((x, .ptr b o) :: cv)
+      | .win, .val (.win b o ss) => bindC c ps as ci ((x, .win b o ss) :: cv)
+      | _, _ => throw .stuck
+  | _, _, _, _ => throw .stuck
+
 mutual
 def execCS (mon : Bool) : CStmt → CState V → Except CErr (CState V)
   | .nop, c => pure c
@@ -337,6 +398,12 @@ def execCS (mon : Bool) : CStmt → CState V → Except CErr (CState V)
           let r := cWindow ⟨p, ss⟩ (mkWA ls isIv)
           pure { c with vals := (w, .win b r.off r.strides) :: c.vals }
       | _, _ => throw .stuck
+  | .call (.mk _ ps body) args, c => do
+      -- a fresh frame (only the parameters are visible) sharing heap, statuses and `ctxt`; at the
+      -- callee's closing brace its blocks are dropped (leak monitor) and the caller's frame is back
+      let (ci, cv) ← bindC c ps args [] []
+      let c' ← execCL mon body { c with ints := ci, vals := cv }
+      leaveC mon c c'
 def execCL (mon : Bool) : List CStmt → CState V → Except CErr (CState V)
   | [], c => pure c
   | s :: r, c => do
